@@ -42,7 +42,7 @@ def run(ck):
         for key in ('expand', 'weave', 'final'):
             if d.get(key) != 'ok':
                 corr_bad.append((key, c, v))
-        for key in ('wf', 'fit'):
+        for key in ('wf', 'fit', 'dims'):
             if d.get(key) != 'ok':
                 prem_bad.append((key, c, v))
         if d.get('integrity') != 'ok':
